@@ -80,6 +80,7 @@ class Ctx:
     def __init__(self, root="/repo", overlay=None):
         self.P = Program(root=root, overlay=overlay)
         self.R = Resolver(self.P)
+        _build_signatures(self.P)
         self._facts = {}
         self._does = {}
 
@@ -416,6 +417,34 @@ def kwarg(call, name, pos=None):
             return k.value
     if pos is not None and len(call.args) > pos:
         return call.args[pos]
+    return None
+
+
+_SIG = {}
+
+
+def _build_signatures(P):
+    """name -> set of parameter tuples over every function / method of the analysed program (self / cls dropped)"""
+    _SIG.clear()
+    for f in P.functions.values():
+        a = f.node.args
+        ps = [x.arg for x in a.posonlyargs + a.args]
+        if f.cls is not None and ps and ps[0] in ("self", "cls"):
+            ps = ps[1:]
+        _SIG.setdefault(f.name, set()).add(tuple(ps))
+        if f.name == "__init__" and f.cls is not None:
+            _SIG.setdefault(f.cls.name, set()).add(tuple(ps))
+
+
+def argn(call, i):
+    """the i-th argument of a call in the callee's parameter order, whether it is written positionally or as a keyword
+    (keywords are mapped through the parameter lists of the program's functions of that name, if they agree at position i)"""
+    if len(call.args) > i:
+        return None if any(isinstance(x, ast.Starred) for x in call.args[:i]) else call.args[i]
+    sigs = _SIG.get(fn_name(call)) or set()
+    names = {s[i] for s in sigs if len(s) > i}
+    if len(names) == 1 and all(len(s) > i for s in sigs):
+        return kwarg(call, next(iter(names)))
     return None
 
 
